@@ -746,6 +746,29 @@ theorem update_uncles_guards (cfg : Cfg) (U mc mp : Nat) (g : GSt)
     · simp [h]
     · rfl
 
+/-- `update_uncles` with EXACTLY one uncle's size left (`remain_size == serialized_size_in_block`): the
+    guard `remain_size > U` refuses, template and container stay as they are -/
+theorem update_uncles_at_boundary_unchanged (cfg : Cfg) (U mc mp : Nat) (g : GSt)
+    (h : cfg.maxBytes - g.a.t.sTotal = U) : gstep cfg U mc mp g .uncles = g :=
+  update_uncles_guards cfg U mc mp g (Or.inr (by omega))
+
+/-- why `>` and `>=` in that guard differ only in side effects: at the boundary the test that follows
+    (`new_total_size < max_block_bytes`) refuses every prepared list that is LONGER than the template's
+    current one, whatever `prepare_uncles` returns. With `>=` the path could therefore only prune the
+    container or install a list that is not longer (the harness drives the boundary — fills that leave
+    exactly 228 / 229 bytes at an epoch's last block — so that the pruning shows in the compared
+    candidate list). -/
+theorem update_uncles_boundary_growth_refused (maxBytes U sTotal sUncles nOld nNew : Nat)
+    (h : maxBytes - sTotal = U) (hle : sTotal ≤ maxBytes) (hu : sUncles = U * nOld) (hgrow : nOld < nNew) :
+    ¬ Template.calcTotal sTotal sUncles (U * nNew) < maxBytes := by
+  have hmul : U * (nOld + 1) ≤ U * nNew := Nat.mul_le_mul_left U hgrow
+  rw [Nat.mul_add, Nat.mul_one] at hmul
+  subst hu
+  generalize U * nOld = a at *
+  generalize U * nNew = b at *
+  unfold Template.calcTotal
+  split <;> omega
+
 /-- the staleness guard: while the pool's snapshot is on another tip than the assembler's, the three
     pool-reading paths leave assembler, container and tip exactly as they are -/
 theorem stale_pool_tip_leaves_template (cfg : Cfg) (U mc mp : Nat) (g : GSt) (poolTip : Nat) (hne : g.tipId ≠ poolTip)
